@@ -249,6 +249,18 @@ CLAIMED["C01"] = dict(
         "caught at the store), fsync and concurrency are not decided. One open known finding (an 'unchanged' write drops new metadata). " + TRUST,
    design="DESIGN.md §4 C01")
 
+CLAIMED["C22"] = dict(
+   text="Proof-level kernel: SealedBuffers.SealBuffer is verified with an inductive loop invariant for any number of sealed buffers - every sealed buffer takes over "
+        "bytes, valid length and time range of its successor, the last takes the buffer being sealed, and the writer gets back the bytes of the buffer that was the "
+        "oldest; LogBuffer.ReadFromBuffer on the current buffer (binary search with an inductive invariant over an index with strictly increasing timestamps, entry "
+        "timestamps abstract): the bytes handed back start exactly at the first entry newer than the requested time and run to the write position, all slice accesses "
+        "of the sealed-buffer scan are in range; LogBuffer.AddToBuffer serialises an entry that carries a timestamp strictly above the previous event's (guard at "
+        "the Marshal call).",
+   note="Entry timestamps (protobuf decoding) and MemBuffer.locateByTs are abstract (assumed: the search in a sealed buffer ends inside its valid length); the disk "
+        "fallback (ReadEachLogEntry in filer_notify.go: seeded change C22-m1), flushing, notification and every schedule are not decided here. One defect repaired "
+        "(the writer was handed a sealed buffer's array). " + TRUST,
+   design="DESIGN.md §4 C22")
+
 NA = {
  "C03":"crash-point property over byte-level truncation of two persistent files; no per-function contract within reach decides it (DESIGN §4 C03)",
  "C10":"needs inductive tree predicates and cardinality reasoning over interface-typed nodes in pointer maps with randomised picking (DESIGN §4 C10)",
